@@ -1,28 +1,48 @@
 import os
-LOOPS = {r'nameOf': 26, r'shim5eager': 5, r'RK3Sym|R3Sym|^h_|makeOffer': 5, r'SaslHtMechanism10fromString': 9, r'__find_uniq_type_in_pack': 10,
+LOOPS = {r'nameOf': 26, r'shim9eager_buf|shim9base_view': 5, r'RK3Sym|R3Sym|^h_|makeOffer': 5, r'SaslHtMechanism10fromString': 9, r'__find_uniq_type_in_pack': 10,
          r'QListI7QStringE13node_destruct': 8, r'QListI7QStringE9node_copy': 8}
+TABLE = 'each any row of the 53-name table (38 mechanism names: 4 SCRAM, DIGEST-MD5, PLAIN, ANONYMOUS, 3 X-*, all 28 HT-<hash>-<cb>; 15 garbled/unknown/wrong-case names)'
 def I(name, entry, **kw):
-    d = dict(name=name, entry=entry, unwind=4, timeout_s=300, mem_gb=6, tiers=('quick', 'thorough'), model_loop_bound=26, bound=''); d.update(kw)
+    d = dict(name=name, entry=entry, unwind=4, timeout_s=420, mem_gb=6, tiers=('quick', 'thorough'), model_loop_bound=26, bound=''); d.update(kw)
     if os.environ.get('C05_DEBUG'): d['cbmc_flags'] = list(d.get('cbmc_flags', [])) + ['--verbosity', '9']; d['timeout_s'] = int(os.environ['C05_DEBUG'])
     return d
-def G(name, instances, models, **cxx):
+def G(name, instances, models, shadow=False, **cxx):
     defs = {'VP_NOFF': 3, 'VP_NDIS': 2, '_GLIBCXX_RANGES': 1}; defs.update(cxx)
-    return dict(name=name, harness='h.cpp', ranges_shim=False,
+    return dict(name=name, harness='h.cpp', ranges_shim=False, shadow_task=shadow,
                 tus=['src/base/QXmppSasl.cpp', 'src/client/QXmppConfiguration.cpp'],
                 models=models, cxxdefs=defs, loop_bounds=LOOPS, instances=instances)
 BASE = ['c05_str.c', 'c05_list.c', 'models.c']
-def choose(o, d, **kw):
-    return I('choose_o%d_d%d' % (o, d), 'h_choose', cdefs={'C05_NOFF': o, 'C05_NDIS': d}, unwind=o + 1,
-             bound='offer list of exactly %d names, disabled list of exactly %d names, each any row of the 52-name table' % (o, d), **kw)
+CUT = BASE + ['c05_cut.c']
+Q = ('quick', 'thorough'); T = ('thorough',)
+QUICK_CHOOSE = {(0, 0), (1, 2), (2, 1), (2, 2), (3, 0), (3, 2)}
+def od(o, d): return {'C05_NOFF': o, 'C05_NDIS': d}
+def choose(o, d):
+    return I('choose_o%d_d%d' % (o, d), 'h_choose', cdefs=od(o, d), tiers=Q if (o, d) in QUICK_CHOOSE else T,
+             bound='offer list of exactly %d names, disabled list of exactly %d names, preferred name or none, %s; password / 3 X-token flags / HT token with any of the 28 HT mechanisms' % (o, d, TABLE))
 SPEC = dict(
     property='C05',
     groups=[
-        G('parse', [I('parse_table', 'h_parse_table', unwind=2, bound='every row of the 52-name table')], BASE),
+        # lemma on the REAL parser (no cut): SaslMechanism::fromString(name_i) == meaning of row i, symbolic row
+        G('parse', [I('parse_table', 'h_parse_table', unwind=2, bound='every row of the 53-name table (symbolic row index)')], BASE),
+        G('parse_alias', [I('parse_alias', 'h_parse_table', unwind=2, known_finding='ht-alias-name', bound='row 52 "HT-SHA-256SHA-384-NONE"')], BASE, VP_WITH_ALIAS=1, VP_ROW_LO=52, VP_ROW_HI=53),
+        # REAL chooseMechanism / isMechanismAvailable / variant order / configuration, fromString cut to the lemma
         G('choose_cut', [choose(o, d) for o in (0, 1, 2, 3) for d in (0, 1, 2)]
-                        + [I('default_plain_o%d' % o, 'h_default_plain', cdefs={'C05_NOFF': o, 'C05_NDIS': 0}, unwind=o + 1) for o in (1, 2, 3)],
-          BASE + ['c05_cut.c']),
-        G('dbg', [I('dbg%s' % i, 'h_dbg%s' % i, cdefs={'C05_NOFF': 1, 'C05_NDIS': 2}, unwind=2) for i in 'ABC'], BASE, VP_DEBUG_ENTRIES=1),
-        G('dbgcut', [I('dbg%s' % i, 'h_dbg%s' % i, cdefs={'C05_NOFF': 1, 'C05_NDIS': 2}, unwind=2) for i in 'DEFGH'], BASE + ['c05_cut.c'], VP_DEBUG_ENTRIES=1),
+                        + [I('default_plain_o%d' % o, 'h_default_plain', cdefs=od(o, 0), tiers=Q if o in (1, 3) else T,
+                             bound='default-constructed configuration (disabled = {PLAIN} from the constructor), offer list of exactly %d names' % o) for o in (1, 2, 3)]
+                        + [I('mismatch_sasl1_o%d' % o, 'h_mismatch_sasl1', cdefs=od(o, 2), tiers=Q if o == 3 else T,
+                             bound='SaslManager::authenticate, offer list of exactly %d names, nothing permitted' % o) for o in (0, 2, 3)]
+                        + [I('mismatch_sasl2_o%d_f%d' % (o, f), 'h_mismatch_sasl2', cdefs=dict(od(o, 2), C05_FASTBITS=f), object_bits=12, tiers=Q if (o, f) in ((3, 7), (3, 5)) else T,
+                             bound='Sasl2Manager::authenticate, %d names of which the last one inside <fast/>, FAST bits %d (1 server offers fast, 2 enabled in config, 4 user agent set), nothing permitted' % (o, f)) for o in (1, 3) for f in (7, 6, 5, 3, 0)],
+          CUT, shadow=True),
+        # composition check without the cut: real parser inside the real choice
+        G('e2e', [I('e2e_o1_d1', 'h_choose', cdefs=od(1, 1), bound='uncut, offer list of exactly 1 name, 1 disabled name'),
+                  I('e2e_o2_d2', 'h_choose', cdefs=od(2, 2), tiers=T, mem_gb=14, timeout_s=1500, bound='uncut, offer list of exactly 2 names, 2 disabled names'),
+                  I('alias_bypass', 'h_alias_bypass', cdefs=od(1, 1), known_finding='ht-alias-name', bound='concrete: offer ["HT-SHA-256SHA-384-NONE"], disabled ["HT-SHA-384-NONE"], token HT-SHA-384-NONE')],
+          BASE, VP_WITH_ALIAS=1),
     ],
     bounds=[], assumptions=[], outside=[],
 )
+if os.environ.get('C05_DEBUG'):
+    SPEC['groups'] += [
+        G('dbg', [I('dbg%s' % i, 'h_dbg%s' % i, cdefs=od(1, 2), unwind=2) for i in 'ABC'], BASE, VP_DEBUG_ENTRIES=1),
+        G('dbgcut', [I('dbg%s' % i, 'h_dbg%s' % i, cdefs=od(1, 2), unwind=2) for i in 'DEFGH'], CUT, VP_DEBUG_ENTRIES=1)]
